@@ -2858,7 +2858,8 @@ impl ModuleGraph {
   {
     self.module_slots.iter().filter_map(to_result).chain(
       self.redirects.iter().filter_map(|(specifier, found)| {
-        let module_slot = self.module_slots.get(found)?;
+        // a redirect source may be several hops away from its entry
+        let module_slot = self.module_slots.get(self.resolve(found))?;
         to_result((specifier, module_slot))
       }),
     )
